@@ -121,11 +121,9 @@ def deleteOnMissing (ops : List Op) : Bool :=
     let hit := match o with | .del k _ _ => (lookup k acc.1).isNone | _ => false
     ((specOp acc.1 o).1, acc.2 || hit)) (specInit, false)).2
 
+/-- the one defect family left in place: colliding metadata file names (`sanitize_name`) -/
 def clsH (ops : List Op) : String :=
-  if hasColonKg ops then "kg_name_contains_colon"
-  else if hasFileCollision ops then "shard_file_name_collision"
-  else if deleteOnMissing ops then "write_persisted_for_missing_kg"
-  else "unclassified"
+  if hasFileCollision ops then "shard_file_name_collision" else "unclassified"
 
 def specH (ops : List Op) (impl : String) : String :=
   match impl.splitOn " # " with
@@ -169,11 +167,8 @@ def explains (progs : List (List Op)) (order : List (Nat × Op)) (obsRes : List 
 def parseRes (r : String) : List (List String) :=
   (r.splitOn "/").map (fun t => if t == "-" then [] else t.splitOn ",")
 
-def clsS (progs : List (List Op)) (sched : List Nat) : String :=
-  let fin := lastState (init progs) (fullSched progs sched)
-  if fin.persistedForMissing then "write_persisted_for_missing_kg"
-  else if fin.staleMetaWrite then "stale_kg_metadata_overwrite"
-  else "unclassified"
+/-- no known defect class is left for scheduled runs (drop races and the metadata race are repaired) -/
+def clsS (_progs : List (List Op)) (_sched : List Nat) : String := "unclassified"
 
 def specS (progs : List (List Op)) (sched : List Nat) (impl : String) : String :=
   if impl.startsWith "blocked" then "na" else
